@@ -759,7 +759,7 @@ func main() {
 			"in the nested-evaluation configurations the host function other(x) evaluates a second generated function of the same generator with Func.Eval while the calling evaluation is running; the reference world implements other(x) in Go, so there the comparison is 'nested generated function' against 'native host function'",
 			"the state key contains every field the list code reads (through the C09 accessors); Go closures captured by lazy lists and by closure values are opaque, their captured lists are covered because every list the optimizer creates is recorded when it is created",
 		},
-		QuickBudget: 55e9, ThoroughBudget: 22 * 60e9,
+		QuickBudget: 90e9, ThoroughBudget: 22 * 60e9,
 		Run:              run,
 		Replay:           replay,
 		Extra:            extra,
